@@ -107,11 +107,27 @@ def _loop_phase(ctx: ast.ClassDef):
 class _Skel(ast.NodeVisitor):
     """Ordered framework actions of one context method (source order = evaluation order here)."""
 
-    def __init__(self, emitters, loop_phase):
+    def __init__(self, emitters, loop_phase, methods=None):
         self.acts = []
         self.emitters = emitters
         self.loop_phase = loop_phase
         self.loopvar = None
+        self.methods = methods or {}     # private helpers of the context class: a call `self._helper(...)` is followed into its body
+        self.aliases = {}                # local name -> ("emitVar" | ("emit", event)) for `emit = self.time_step_emitters[event]`
+        self.depth = 0
+
+    def visit_Assign(self, node):
+        v = node.value
+        if len(node.targets) == 1 and isinstance(node.targets[0], ast.Name):
+            if isinstance(v, ast.Subscript) and _attr_name(v.value) == "time_step_emitters" and \
+                    isinstance(v.slice, ast.Name) and v.slice.id == self.loopvar:
+                self.aliases[node.targets[0].id] = "emitVar"
+                return
+            nm = _attr_name(v) if isinstance(v, (ast.Attribute, ast.Name)) else None
+            if nm in self.emitters:
+                self.aliases[node.targets[0].id] = ("emit", self.emitters[nm])
+                return
+        self.generic_visit(node)
 
     def visit_For(self, node):
         if _attr_name(node.iter) == "time_step_events" and isinstance(node.target, ast.Name):
@@ -134,6 +150,25 @@ class _Skel(ast.NodeVisitor):
             self.visit(k.value)
         f = node.func
         name = _attr_name(f)
+        if isinstance(f, ast.Name) and f.id in self.aliases:
+            a = self.aliases[f.id]
+            self.acts.append(("emitVar", None) if a == "emitVar" else a)
+            return
+        if isinstance(f, ast.Attribute) and isinstance(f.value, ast.Name) and f.value.id == "self" and name in self.methods \
+                and name not in CONTEXT_METHODS and name not in ("get_population", "run") and self.depth < 3:
+            # an extracted private helper: follow it, binding a parameter that receives the loop variable to that role
+            h = self.methods[name]
+            params = [a.arg for a in h.args.args][1:]
+            saved = self.loopvar
+            for p_, a_ in zip(params, node.args):
+                if isinstance(a_, ast.Name) and a_.id == saved:
+                    self.loopvar = p_
+            self.depth += 1
+            for s_ in h.body:
+                self.visit(s_)
+            self.depth -= 1
+            self.loopvar = saved
+            return
         if name == "set_state":
             a = node.args[0] if node.args else None
             if isinstance(a, ast.Constant):
@@ -177,8 +212,9 @@ def context_skeletons():
     emitters = _emitter_map(ctx)
     loop_phase = _loop_phase(ctx)
     skel = {}
+    methods = {n.name: n for n in ctx.body if isinstance(n, ast.FunctionDef)}
     for m in CONTEXT_METHODS:
-        v = _Skel(emitters, loop_phase)
+        v = _Skel(emitters, loop_phase, methods)
         for s in _fn(ctx, m).body:
             v.visit(s)
         skel[m] = v.acts
